@@ -81,6 +81,8 @@ def trivial(e):
     ev = e.get("ev")
     if ev == "prim":
         return not e.get("u") and not e.get("data")
+    if ev == "jsonout":
+        return len(e.get("calls", [])) <= 1
     if ev == "typedef":
         return not e.get("T", {}).get("f") and e.get("T", {}).get("k") == "struct"
     if ev == "hostile":
